@@ -1485,6 +1485,20 @@ def build_contracts(reg):
             "_folders": Maker(lambda ex, st, name: [(MF >= 0, VSeq(MF, lambda k: VExt("Folder", FOLD(k)), "Folder"))], desc="list[Folder]"),
             "_folder_to_files": p_ext("FolderMap")})
 
+    ROLES = {
+        "self": b_self(), "num_files": p_int(0),
+        "empty_streams": Maker(lambda ex, st, name: VSeq(NFL, lambda i: VBool(ES(i)), "bool"), desc="list[bool] (kEmptyStream)"),
+        "empty_files": Maker(lambda ex, st, name: VSeq(NFL, lambda i: VBool(EF(i)), "bool"), desc="list[bool] (kEmptyFile, per file)"),
+        "names": Maker(lambda ex, st, name: VSeq(NFL, lambda i: VStr(NAME(i)), "str"), desc="list[str]"),
+        "attributes": Maker(lambda ex, st, name: VSeq(NFL, lambda i: VInt(ATTR(i)), "int"), desc="list[uint32]"),
+    }
+
+    def b_params():
+        """parameters by ROLE, read from the real signature (the header vectors the function is given; `empty_files` is optional)"""
+        fnode = loader.module(SEVEN).functions.get("SevenZipReader._build_file_list")
+        names = [a.arg for a in fnode.args.args] if fnode is not None else ["self", "num_files", "empty_streams", "names", "attributes"]
+        return [(n, ROLES.get(n, p_unk())) for n in names]
+
     def b_requires(c):
         t = z3.Int("t!req")
         n = ops.int_term(c.args["num_files"])
@@ -1492,7 +1506,8 @@ def build_contracts(reg):
             n == NFL, NFL >= 0, NFS >= 0,
             # writers' invariants (7-Zip, py7zr; format description): a directory entry has no stream; every folder
             # holds at least one sub-stream; SubStreamsInfo lists one size per stream-bearing file
-            z3.ForAll([t], z3.Implies(z3.And(t >= 0, t < NFL, (ATTR(t) & z3.BitVecVal(0x10, 32)) != 0), ES(t)), patterns=[ATTR(t)]),
+            z3.ForAll([t], z3.Implies(z3.And(t >= 0, t < NFL, (ATTR(t) & z3.BitVecVal(0x10, 32)) != 0), z3.And(ES(t), z3.Not(EF(t)))), patterns=[ATTR(t)]),
+            z3.ForAll([t], z3.Implies(z3.And(t >= 0, t < NFL, EF(t)), ES(t)), patterns=[EF(t)]),      # kEmptyFile is defined on emptyStream entries only
             z3.ForAll([t], z3.Implies(z3.And(t >= 0, t < MF), NSK(t) >= 1), patterns=[FOLD(t)]),
             RANK(NFL) <= NFS)
 
@@ -1575,10 +1590,7 @@ def build_contracts(reg):
 
     out.append(FnContract(
         target=f"{RD}._build_file_list",
-        params=[("self", b_self()), ("num_files", p_int(0)),
-                ("empty_streams", Maker(lambda ex, st, name: VSeq(NFL, lambda i: VBool(ES(i)), "bool"), desc="list[bool]")),
-                ("names", Maker(lambda ex, st, name: VSeq(NFL, lambda i: VStr(NAME(i)), "str"), desc="list[str]")),
-                ("attributes", Maker(lambda ex, st, name: VSeq(NFL, lambda i: VInt(ATTR(i)), "int"), desc="list[uint32]"))],
+        params=b_params(),
         requires=b_requires, raises=[], modifies=("self",),
         ensures=[completes("file-i-gets-its-name-attributes-and-the-size-of-its-sub-stream",
                            "file-with-r-th-stream-goes-to-the-folder-k-with-cum(k)<=r<cum(k+1)")],
